@@ -117,6 +117,9 @@ def rich_ro(rng, n, all_timed=False, dup_ids=False):
     st = rng.choice(TIMES)
     if st is not None:
         kids.append(E('roEdStart', text=st))
+    if rng.random() < 0.3:
+        # an editorial duration of the running order (MOS roEdDur): not what ro.duration reports
+        kids.append(E('roEdDur', text=rng.choice(['00:01:00', '01:00:00', '00:00:00', '1:2:3', ''])))
     for k in range(n):
         j = k if not (dup_ids and k == n - 1 and n > 1) else 0
         sid = gens.STORY_IDS[j] if j < len(gens.STORY_IDS) else 'S%d' % j
